@@ -18,7 +18,7 @@ def jobs(pid, tier, seed):
     n = 1500 if tier == "quick" else 30000
     out = [{"kind": "directed", "i": i} for i in range(len(DIRECTED))]
     out += [{"kind": "cut", "seed": seed * 1000003 + i} for i in range(n)]
-    out += [{"kind": "cut", "seed": seed * 1000003 + 5000000 + i, "life": 1} for i in range(n)]
+    out += [{"kind": "cut", "seed": seed * 1000003 + 5000000 + i, "life": 1} for i in range(3 * n)]
     return out
 
 
